@@ -75,6 +75,21 @@ def handle (st : St) (n : Nat) (line : String) : Result := Id.run do
       let f := fail st n "C10" s!"production binary ({phase}): {msg.take 200}"
       let f2 := fail f.st n "C06" s!"production binary ({phase}): {msg.take 200}"
       return { st := f2.st, out := f.out ++ f2.out }
+  | "BINP" :: rest =>
+    let g := field rest
+    let st := st.bump s!"binary.polled.{(g "phase").getD "?"}"
+    if (g "want").getD "?" == (g "served").getD "!" && (g "valid").getD "0" == "1" then return { st := { st with nOK := st.nOK + 1 }, out := [s!"OK {n}"] }
+    else
+      let f := fail st n "C14" s!"production binary ({(g "phase").getD "?"}): the polled log published size {(g "want").getD "?"} but the binary serves size {(g "served").getD "?"} (cosigned-valid={(g "valid").getD "0"}) after 10 s of 50 ms polls"
+      if ((g "phase").getD "").startsWith "after-restart" then
+        let f2 := fail f.st n "C06" "production binary: the polled log's acknowledged checkpoint is not served after SIGKILL and restart"
+        return { st := f2.st, out := f.out ++ f2.out }
+      return f
+  | "BIND" :: rest =>
+    let g := field rest
+    let st := st.bump "binary.distributed"
+    if (g "pushed").getD "0" == "1" then return { st := { st with nOK := st.nOK + 1 }, out := [s!"OK {n}"] }
+    else return fail st n "C14" s!"production binary: with --rest_distro_url set, the witnessed checkpoint of the polled log never arrived (verifiable, at /distributor/v0/logs/<id>/byWitness/<name>/checkpoint) at the distributor ({(g "puts").getD "0"} PUTs seen)"
   | "BINC" :: rest =>
     let g := field rest
     let st := st.bump "binary.served"
